@@ -14,6 +14,7 @@ import fsm2
 import esc
 import attr
 import dead
+import rec
 
 
 def _c11_fsm(ctx):
@@ -32,6 +33,7 @@ def _c11_rest(ctx):
     lin.rule_bnd(ctx)
     pair.rule_newdelete(ctx)
     sib.rule_finish_siblings(ctx)
+    rec.rule_recognisers(ctx)
 
 
 def _c04(ctx):
@@ -143,9 +145,14 @@ PROPS = {
                        "source size and never alias. Algebraic identities are not decided.",
     },
     "C18": {
-        "rules": [tab.rule_ellipsoids],
+        "rules": [tab.rule_ellipsoids, rec.rule_recognisers],
         "explanation": "R-TAB T3: the ellipsoid enumerators, caption and id arrays, the strcmp chain of ellipsoid(name), the switch of "
-                       "set(Ellipsoid*, id) and xml/ellipsoids.xml agree entry by entry. Round trips are numerical and not decided.",
+                       "set(Ellipsoid*, id) and xml/ellipsoids.xml agree entry by entry. R-REC: the character-level recognisers IsFloat / "
+                       "IsInteger are read off their CFG as finite automata (abstract state = program point, boolean locals, knowledge of "
+                       "the character under the position; `++b` consumes a character), determinised and compared by product construction "
+                       "with the automaton of the documented literal format - language equality for every string, with the shortest "
+                       "distinguishing string reported - and the position is never dereferenced or advanced at the end of the input. "
+                       "Round trips are numerical and not decided; deg2gon reads its fields through an istringstream and is not modelled.",
     },
     "C19": {
         "rules": [tab.rule_g3_visitors, lazy.rule_lazy_chain, lazy.rule_lazy_adj, tab.rule_algorithms, fsm2.rule_dataparser,
